@@ -28,6 +28,10 @@ package vpack
 //                bottom proposals} x {a,b,c} x rounds {2^64-2, 2^64-1, 255} = 45 votes, to
 //                closure (1 764 states) — the window wraps and evicts, round deltas run into the
 //                uint64 edge.
+//   seq/presence16 81 votes whose proposal fields are each absent / explicitly zero / non-zero
+//                (non-canonical but valid msgpack that the generated codec decodes to the same
+//                vote and the stateless layer reproduces byte for byte), all sequences <= 3:
+//                proposals differing only in field PRESENCE must not share a window reference
 //   seq/core16-54 (thorough) 6 identities x rounds x proposals, to closure (35 011 states)
 // State key = complete encoder dynamicTableState (3 LRU tables incl. MRU bits, proposal
 // window incl. head/size, lastRnd), physical layout, hashed: merged states are identical
@@ -40,7 +44,8 @@ package vpack
 //
 // E-ENUM parts:
 //   enum/lattice   every subset of the 14 vote values being zero/non-zero (2^14, incl. the
-//                  deprecated sig.ps) x 7 integer size classes: canonical msgpack (cross-checked
+//                  deprecated sig.ps) x 7 integer size classes, and for the first two classes
+//                  every way of spelling out zero-valued optional fields explicitly: canonical msgpack (cross-checked
 //                  with the generated codec) -> CompressVote: either an error (and then the vote
 //                  must be one the README/format cannot represent: missing pf/rnd/snd/sig or
 //                  non-zero ps) or DecompressVote gives back the exact bytes. A vote the format
@@ -116,6 +121,10 @@ type c42vote struct {
 	p2s                [64]byte
 	ps                 [64]byte
 	s                  [64]byte
+	// explicit: optional fields (bitPer, bitDig, bitEncDig, bitOper, bitOprop, bitStep) that are
+	// written out although their value is zero — valid msgpack the generated codec decodes to
+	// the same vote, which the stateless layer accepts and must reproduce byte for byte
+	explicit uint8
 }
 
 func c42appendUint(b []byte, v uint64) []byte {
@@ -174,23 +183,23 @@ func c42bin(data []byte) []byte {
 // parts returns the key/value lists of the "prop" and "r" maps (canonical order, empty
 // values omitted), so that callers can also emit non-canonical key orders.
 func (v *c42vote) parts() (prop, r []c42kv) {
-	if !c42zero(v.dig[:]) {
+	if !c42zero(v.dig[:]) || v.explicit&bitDig != 0 {
 		prop = append(prop, c42kv{"dig", c42bin(v.dig[:])})
 	}
-	if !c42zero(v.encdig[:]) {
+	if !c42zero(v.encdig[:]) || v.explicit&bitEncDig != 0 {
 		prop = append(prop, c42kv{"encdig", c42bin(v.encdig[:])})
 	}
-	if v.oper != 0 {
+	if v.oper != 0 || v.explicit&bitOper != 0 {
 		prop = append(prop, c42kv{"oper", c42appendUint(nil, v.oper)})
 	}
-	if !c42zero(v.oprop[:]) {
+	if !c42zero(v.oprop[:]) || v.explicit&bitOprop != 0 {
 		prop = append(prop, c42kv{"oprop", c42bin(v.oprop[:])})
 	}
 	return prop, v.rparts(prop)
 }
 
 func (v *c42vote) rparts(prop []c42kv) (r []c42kv) {
-	if v.per != 0 {
+	if v.per != 0 || v.explicit&bitPer != 0 {
 		r = append(r, c42kv{"per", c42appendUint(nil, v.per)})
 	}
 	if len(prop) > 0 {
@@ -202,7 +211,7 @@ func (v *c42vote) rparts(prop []c42kv) (r []c42kv) {
 	if !c42zero(v.snd[:]) {
 		r = append(r, c42kv{"snd", c42bin(v.snd[:])})
 	}
-	if v.step != 0 {
+	if v.step != 0 || v.explicit&bitStep != 0 {
 		r = append(r, c42kv{"step", c42appendUint(nil, v.step)})
 	}
 	return r
@@ -253,6 +262,22 @@ func c42codecCheck(b []byte) error {
 	return nil
 }
 
+// c42presenceCheck verifies that m (a vote that spells out some zero-valued optional fields) is
+// valid for the generated codec and denotes the same vote as the canonical encoding canon.
+func c42presenceCheck(m, canon []byte) error {
+	var a, b agreement.UnauthenticatedVote
+	if err := protocol.Decode(m, &a); err != nil {
+		return fmt.Errorf("generated codec rejects explicit-zero encoding: %v", err)
+	}
+	if err := protocol.Decode(canon, &b); err != nil {
+		return fmt.Errorf("generated codec rejects canonical encoding: %v", err)
+	}
+	if a != b {
+		return fmt.Errorf("explicit-zero encoding denotes a different vote")
+	}
+	return nil
+}
+
 // ---------------------------------------------------------------------------------------
 // value material
 
@@ -295,6 +320,7 @@ type c42prop struct {
 	name               string
 	dig, encdig, oprop [32]byte
 	oper               uint64
+	explicit           uint8 // zero-valued proposal fields spelled out explicitly
 }
 
 func c42mkprop(name string, seed byte, fields int, oper uint64) c42prop {
@@ -342,7 +368,7 @@ func c42idents() []c42ident {
 
 func c42build(id c42ident, rnd, per, step uint64, pr c42prop, tag byte) *c42vote {
 	v := &c42vote{per: per, rnd: rnd, step: step, snd: id.snd, p: id.p, p1s: id.p1s, p2: id.p2, p2s: id.p2s,
-		dig: pr.dig, encdig: pr.encdig, oprop: pr.oprop, oper: pr.oper}
+		dig: pr.dig, encdig: pr.encdig, oprop: pr.oprop, oper: pr.oper, explicit: pr.explicit}
 	// pf and s are per-vote values (never table-compressed): derive from everything
 	copy(v.pf[:], c42fill(tag^byte(rnd)^byte(step*11)^id.snd[3], 80))
 	copy(v.s[:], c42fill(tag+byte(per)*3+byte(step)+id.p[5], 64))
@@ -696,37 +722,56 @@ func c42lattice(r *ve.Run, f *c42fail) {
 				continue // no integer present: classes are identical
 			}
 			v := c42latticeVote(mask, cls)
-			m := v.msgpack()
-			r.Eval()
-			rep := map[string]any{"engine": "enum", "part": "lattice", "mask": mask, "class": cls, "msgpack": fmt.Sprintf("%x", m)}
-			if err := c42codecCheck(m); err != nil {
-				f.report("C42:harness-reference-encoding", err.Error(), rep)
-				continue
-			}
-			if len(m) > MaxMsgpackVoteSize {
-				f.report("C42:max-msgpack-size", fmt.Sprintf("canonical vote of %d bytes exceeds MaxMsgpackVoteSize %d", len(m), MaxMsgpackVoteSize), rep)
-			}
-			sl, err := enc.CompressVote(nil, m)
-			if err != nil {
-				if v.representable() {
-					f.report("C42:stateless-reject-valid", fmt.Sprintf("CompressVote rejected a vote the format can represent (mask %015b class %d): %v", mask, cls, err), rep)
+			// which optional fields are zero-valued here and can be spelled out explicitly
+			var zeroOpt uint8
+			for bit, fl := range map[int]uint8{1: bitPer, 2: bitDig, 3: bitEncDig, 4: bitOper, 5: bitOprop, 8: bitStep} {
+				if mask&(1<<bit) == 0 {
+					zeroOpt |= fl
 				}
-				r.Class("lattice/reject")
-				continue
 			}
-			if len(sl) > MaxCompressedVoteSize {
-				f.report("C42:max-compressed-size", fmt.Sprintf("compressed vote of %d bytes exceeds MaxCompressedVoteSize", len(sl)), rep)
+			canon := v.msgpack()
+			for ex := 0; ex < 64; ex++ {
+				if uint8(ex)&^zeroOpt != 0 || (ex != 0 && cls > 1) {
+					continue // explicit-zero variants: with the first two integer classes only
+				}
+				v.explicit = uint8(ex)
+				m := v.msgpack()
+				r.Eval()
+				rep := map[string]any{"engine": "enum", "part": "lattice", "mask": mask, "class": cls, "explicit": ex, "msgpack": fmt.Sprintf("%x", m)}
+				if ex == 0 {
+					if err := c42codecCheck(m); err != nil {
+						f.report("C42:harness-reference-encoding", err.Error(), rep)
+						continue
+					}
+				} else if err := c42presenceCheck(m, canon); err != nil {
+					f.report("C42:harness-reference-encoding", err.Error(), rep)
+					continue
+				}
+				if len(m) > MaxMsgpackVoteSize {
+					f.report("C42:max-msgpack-size", fmt.Sprintf("canonical vote of %d bytes exceeds MaxMsgpackVoteSize %d", len(m), MaxMsgpackVoteSize), rep)
+				}
+				sl, err := enc.CompressVote(nil, m)
+				if err != nil {
+					if v.representable() {
+						f.report("C42:stateless-reject-valid", fmt.Sprintf("CompressVote rejected a vote the format can represent (mask %015b class %d): %v", mask, cls, err), rep)
+					}
+					r.Class("lattice/reject")
+					continue
+				}
+				if len(sl) > MaxCompressedVoteSize {
+					f.report("C42:max-compressed-size", fmt.Sprintf("compressed vote of %d bytes exceeds MaxCompressedVoteSize", len(sl)), rep)
+				}
+				out, err := dec.DecompressVote(nil, sl)
+				if err != nil {
+					f.report("C42:stateless-decompress-error", fmt.Sprintf("DecompressVote failed on CompressVote output (mask %015b class %d): %v", mask, cls, err), rep)
+					continue
+				}
+				if !bytes.Equal(out, m) {
+					f.report("C42:roundtrip", fmt.Sprintf("stateless round trip differs (mask %015b class %d; representable=%v):\n in  %x\n out %x", mask, cls, v.representable(), m, out), rep)
+					continue
+				}
+				r.Class(fmt.Sprintf("lattice/ok/hdr%02x", sl[0]))
 			}
-			out, err := dec.DecompressVote(nil, sl)
-			if err != nil {
-				f.report("C42:stateless-decompress-error", fmt.Sprintf("DecompressVote failed on CompressVote output (mask %015b class %d): %v", mask, cls, err), rep)
-				continue
-			}
-			if !bytes.Equal(out, m) {
-				f.report("C42:roundtrip", fmt.Sprintf("stateless round trip differs (mask %015b class %d; representable=%v):\n in  %x\n out %x", mask, cls, v.representable(), m, out), rep)
-				continue
-			}
-			r.Class(fmt.Sprintf("lattice/ok/hdr%02x", sl[0]))
 		}
 	})
 }
@@ -1060,6 +1105,46 @@ func TestVerif_C42(t *testing.T) {
 		}
 	}
 
+	// presence alphabet: every proposal whose four fields are each absent / explicit zero /
+	// non-zero (3^4 = 81, the content bytes being the same wherever present): proposals that
+	// differ ONLY in which fields are present must stay distinct window entries
+	var palpha []c42op
+	var palphaCanon [][]byte
+	for code := 0; code < 81; code++ {
+		st := [4]int{code % 3, code / 3 % 3, code / 9 % 3, code / 27 % 3}
+		pr := c42prop{name: fmt.Sprintf("presence[dig,encdig,oper,oprop]=%v", st)}
+		base := c42mkprop("", 0x19, 7, 1)
+		if st[0] == 2 {
+			pr.dig = base.dig
+		} else if st[0] == 1 {
+			pr.explicit |= bitDig
+		}
+		if st[1] == 2 {
+			pr.encdig = base.encdig
+		} else if st[1] == 1 {
+			pr.explicit |= bitEncDig
+		}
+		if st[2] == 2 {
+			pr.oper = 1
+		} else if st[2] == 1 {
+			pr.explicit |= bitOper
+		}
+		if st[3] == 2 {
+			pr.oprop = base.oprop
+		} else if st[3] == 1 {
+			pr.explicit |= bitOprop
+		}
+		v := c42build(idents[0], 255, uint64(code%2), steps[code%5], pr, 0x0c)
+		palpha = append(palpha, c42op{c42name(idents[0], 255, uint64(code%2), steps[code%5], pr), v.msgpack()})
+		v.explicit = 0
+		palphaCanon = append(palphaCanon, v.msgpack())
+	}
+	for i, op := range palpha {
+		if err := c42presenceCheck(op.msgp, palphaCanon[i]); err != nil {
+			t.Fatalf("HARNESS: presence alphabet vote %s: %v", op.name, err)
+		}
+	}
+
 	// every alphabet vote is a real, canonical vote encoding for the generated codec
 	alphabets := map[string][]c42op{"full": full, "core36": core36, "core54": core54, "window": walpha}
 	for name, al := range alphabets {
@@ -1101,6 +1186,9 @@ func TestVerif_C42(t *testing.T) {
 	}
 	if r.Violations() == 0 {
 		c42seq(r, &cov, "seq/window16", 16, walpha, preamble, dWindow)
+	}
+	if r.Violations() == 0 {
+		c42seq(r, &cov, "seq/presence16", 16, palpha, nil, 3)
 	}
 	if r.Violations() == 0 && dCore54 > 0 {
 		c42seq(r, &cov, "seq/core16-54", 16, core54, nil, dCore54)
